@@ -22,7 +22,7 @@ RULE = ("exhaustive enumeration of (ballot, assertion) pairs for each candidate 
         "complete table), plus seeded random RAIRE files and RAIRE runs; non-trivial = the ballot ranks at least one of "
         "the assertion's two candidates; distinct = (n, ballot, assertion) / hash of file / hash of profile")
 REQUIRED = ["assort_pairs_compared", "assort_pairs_nontrivial", "exhaustive_tables", "reader_entries_compared",
-            "reader_files", "reapplied_NEB", "reapplied_NEN", "ballots_lacking_contest_compared", "ballots_on_a_reused_record"]
+            "reader_files", "reapplied_NEB", "reapplied_NEN", "ballots_lacking_contest_compared", "ballots_on_a_reused_record", "reader_files_with_non_ascii_names"]
 ASSUMPTIONS = ["rankings are duplicate-free (the property's quantifier)", "candidate ids are strings in both readers",
                "JSON mapping per the RAIRE documentation: WINNER_ONLY <-> NEB, IRV_ELIMINATION + already_eliminated <-> NEN"]
 EXHAUSTIVE = "c14.assort enumerates every partial ranking x ordered pair x eliminated set for each n listed in the counters"
@@ -144,6 +144,11 @@ def gen_file(rng):
     ncon = rng.randint(1, 3)
     cons = [str(300 + j) for j in range(ncon)]
     cands = {c: [str(rng.randint(1, 9) * 10 + k) for k in range(rng.randint(2, 5))] for c in cons}
+    if rng.random() < 0.25:
+        # candidate identifiers are arbitrary text: names outside ASCII (the file is UTF-8)
+        names = ["José", "Zoë", "Ñu", "Łukasz", "Åsa", "李"]
+        cands = {c: [names[(j + k) % len(names)] + (str(k) if k >= len(names) else "") for k in range(len(v))]
+                 for j, (c, v) in enumerate(cands.items())}
     lines = [str(ncon)]
     for c in cons:
         listed = cands[c][:]
@@ -178,8 +183,10 @@ def run_file(case, rec):
     d = env.scratch_dir("c14")
     try:
         path = os.path.join(d, "t.raire")
-        with open(path, "w") as f:
+        with open(path, "w", encoding="utf-8") as f:
             f.write("\n".join(lines) + "\n")
+        if any(ord(ch) > 127 for ln in lines for ch in ln):
+            rec.count("reader_files_with_non_ascii_names")
         ok1, r1 = rec.guard("c14.call:from_raire_file", CVR.from_raire_file, path)
         ok2, r2 = rec.guard("c14.call:load_contests_from_raire", load_contests_from_raire, path)
     finally:
